@@ -144,10 +144,28 @@ def check_class(ctx, cls_fq, spec):
         for mm in c.members.values():
             if not isinstance(mm, FuncInfo):
                 continue
+            # locals that hold another object's lock: `l = other._lock` / `l = getattr(other, '_lock', ...)`
+            foreign = {}
+            for n in ast.walk(mm.node):
+                if isinstance(n, ast.Assign) and len(n.targets) == 1 and isinstance(n.targets[0], ast.Name):
+                    for x in ast.walk(n.value):
+                        if isinstance(x, ast.Attribute) and x.attr == lock_field and not (isinstance(x.value, ast.Name) and x.value.id == 'self'):
+                            foreign[n.targets[0].id] = ast.unparse(x)
+                        if isinstance(x, ast.Call) and call_name(x) == 'getattr' and len(x.args) >= 2 and \
+                                isinstance(x.args[1], ast.Constant) and x.args[1].value == lock_field and \
+                                not (isinstance(x.args[0], ast.Name) and x.args[0].id == 'self'):
+                            foreign[n.targets[0].id] = ast.unparse(x)
             for n in ast.walk(mm.node):
                 exprs = []
                 if isinstance(n, (ast.With, ast.AsyncWith)):
                     exprs = [it.context_expr for it in n.items]
+                    for e in exprs:
+                        if isinstance(e, ast.Name) and e.id in foreign:
+                            n_acq += 1
+                            ctx.ob('T6o', '%s.%s' % (mm.module.name, mm.qualname), 'only the instance\'s own lock is acquired (taking '
+                                   'another instance\'s lock too gives two locks with no global order: opposite operand orders in '
+                                   'two threads deadlock)', False, loc='%s:%d' % (mm.module.relpath, n.lineno),
+                                   detail='acquires `%s` (= %s)' % (e.id, foreign[e.id]))
                 elif isinstance(n, ast.Call) and isinstance(n.func, ast.Attribute) and n.func.attr in ('acquire', '__enter__'):
                     exprs = [n.func.value]
                 for e in exprs:
